@@ -259,6 +259,7 @@ type c10Monitor struct {
 	fLocked, fRelocked, fNonBonded, fCountPath, fMulti    int
 	okSelect, okSwitch, okRemove, okUnjail, okCreate      int
 	lockSet                                               int // accepted switches that set a lock
+	lockKept                                              int // selectors with a running lock checked for not being shortened
 	minChecks, capChecks, jailChecks, unjailChecks        int
 	roundPairs, roundStale, roundSelOverlap               int
 	valStatusChanges, valSlashes                          int
@@ -325,6 +326,7 @@ func (m *c10Monitor) After(c *Chain, w *World, br *BlockResult, outs []TxOutcome
 	// in-block model of the selector -> reporter map, driven by the accepted messages only
 	model := map[string]string{}
 	count := map[string]int{}
+	removedInBlock := map[string]bool{}
 	for k, v := range snap.selectors {
 		model[k] = string(v.Reporter)
 		count[string(v.Reporter)]++
@@ -428,6 +430,7 @@ func (m *c10Monitor) After(c *Chain, w *World, br *BlockResult, outs []TxOutcome
 						count[prev]--
 						delete(model, string(a))
 						m.lastJoin[string(a)] = "removed"
+						removedInBlock[string(a)] = true
 					}
 				}
 			}
@@ -468,6 +471,17 @@ func (m *c10Monitor) After(c *Chain, w *World, br *BlockResult, outs []TxOutcome
 		}
 		if prev, ok := snap.selectors[sel]; ok && string(prev.Reporter) != string(info.Reporter) && !prev.LockedUntilTime.Equal(info.LockedUntilTime) {
 			m.lockSet++
+		}
+		// a lock period that is still running is never shortened or lifted by a later switch ("excluding selectors
+		// still inside their lock period after switching reporters"); a selector removed and re-created inside the
+		// block is the recorded remove+select finding and is left to the round check
+		if prev, ok := snap.selectors[sel]; ok && prev.LockedUntilTime.After(br.Time) && !removedInBlock[sel] {
+			m.lockKept++
+			if info.LockedUntilTime.Before(prev.LockedUntilTime) {
+				return pbt.Violf("C10/running-lock-shortened/"+m.lastJoin[sel], "block %d (time %s): selector %s was locked until %s before the block and is locked until %s after it (reporter %s -> %s)",
+					br.Height, br.Time.UTC().Format(time.RFC3339Nano), sdk.AccAddress(sel), prev.LockedUntilTime.UTC().Format(time.RFC3339Nano), info.LockedUntilTime.UTC().Format(time.RFC3339Nano),
+					sdk.AccAddress(prev.Reporter), sdk.AccAddress(info.Reporter))
+			}
 		}
 	}
 	for sel := range model {
@@ -740,6 +754,7 @@ func (m *c10Monitor) Classify(info *pbt.CaseInfo) {
 	add(m.okSelect > 0, "accepted:select")
 	add(m.okSwitch > 0, "accepted:switch")
 	add(m.lockSet > 0, "accepted:switch-with-lock")
+	add(m.lockKept > 0, "checked:running-lock-kept")
 	add(m.okRemove > 0, "accepted:remove-selector")
 	add(m.okUnjail > 0, "accepted:unjail")
 	add(m.unjailChecks > 0, "checked:unjail-time")
